@@ -7,13 +7,16 @@ from json import dumps, loads
 from typing import TYPE_CHECKING
 
 # Third Party Imports
+from numpy import array
 from sqlalchemy import Boolean, Column, Float, ForeignKey, Integer, String
 from sqlalchemy.ext.declarative import declared_attr
 from sqlalchemy.orm import Mapped, relationship
 
 # Local Imports
 from ...common.labels import FoVLabel, PlatformLabel, SensorLabel
-from ...physics.time.stardate import datetimeToJulianDate
+from ...physics.constants import RAD2DEG
+from ...physics.time.stardate import JulianDate, datetimeToJulianDate, julianDateToDatetime
+from ...physics.transforms.methods import ecef2lla, eci2ecef
 from .base import Event, EventScope
 
 # Type Checking Imports
@@ -240,18 +243,27 @@ class SensorAdditionEvent(Event):
         Args:
             scope_instance (:class:`.Scenario`): :class:`.Scenario` class that's currently executing.
         """
+        if self.platform == PlatformLabel.GROUND_FACILITY:
+            # [NOTE]: a ground facility is fixed to the Earth and has no station keeping. The stored
+            #   inertial state is valid at the time of this event, so it is handed on as the place
+            #   on the Earth it describes, which holds at whichever epoch the event gets handled.
+            platform_spec = {"type": self.platform}
+            lla = ecef2lla(eci2ecef(array(self.eci), julianDateToDatetime(JulianDate(self.start_time_jd))))
+            state_spec = {
+                "type": "lla",
+                "latitude": lla[0] * RAD2DEG,
+                "longitude": lla[1] * RAD2DEG,
+                "altitude": lla[2],
+            }
+        else:
+            platform_spec = {"type": self.platform, "station_keeping": self.station_keeping}
+            state_spec = {"type": "eci", "position": self.eci[:3], "velocity": self.eci[3:]}
+
         sensor_spec = {
             "id": self.agent_id,
             "name": self.agent.name,
-            "platform": {
-                "type": self.platform,
-                "station_keeping": self.station_keeping,
-            },
-            "state": {
-                "type": "eci",
-                "position": self.eci[:3],
-                "velocity": self.eci[3:],
-            },
+            "platform": platform_spec,
+            "state": state_spec,
             "sensor": {
                 "azimuth_range": self.azimuth_range,
                 "elevation_range": self.elevation_range,
